@@ -1031,6 +1031,9 @@ func c12R5(p *core.Prog, r *core.Report) {
 							continue
 						}
 						got, err := evalComparator(cmp, v)
+						if tgt, hosts := comparatorTarget(cmp); tgt != nil {
+							got, err = evalComparatorWith(tgt, v, hosts)
+						}
 						cl.total++
 						if err != "" {
 							cl.undec = err
@@ -1062,6 +1065,60 @@ func c12R5(p *core.Prog, r *core.Report) {
 
 // evalComparator walks the comparator's CFG under a valuation of its atoms.
 func evalComparator(fn *ssa.Function, v cmpVal) (bool, string) {
+	return evalComparatorWith(fn, v, nil)
+}
+
+// comparatorTarget: the comparator handed to the sort is an adapter that forwards to a function or
+// method of the module (`func(i, j int) bool { return order.less(hosts[i], hosts[j]) }`). It returns
+// that function and, for each of its parameters, which of the two compared hosts it receives.
+func comparatorTarget(fn *ssa.Function) (*ssa.Function, map[*ssa.Parameter]int) {
+	rets := core.Returns(fn)
+	if len(rets) != 1 || len(rets[0].Results) != 1 {
+		return nil, nil
+	}
+	call, ok := rets[0].Results[0].(*ssa.Call)
+	if !ok {
+		return nil, nil
+	}
+	g := call.Call.StaticCallee()
+	if g == nil || len(g.Blocks) == 0 || len(fn.Blocks) > 3 {
+		return nil, nil
+	}
+	hosts := map[*ssa.Parameter]int{}
+	for i, a := range call.Call.Args {
+		if i >= len(g.Params) {
+			break
+		}
+		// the argument is an element indexed by one of the adapter's parameters
+		var idx ssa.Value
+		v := a
+		for d := 0; d < 6 && v != nil && idx == nil; d++ {
+			switch z := v.(type) {
+			case *ssa.UnOp:
+				v = z.X
+			case *ssa.IndexAddr:
+				idx = z.Index
+			case *ssa.Index:
+				idx = z.Index
+			default:
+				v = nil
+			}
+		}
+		if pr, ok := idx.(*ssa.Parameter); ok {
+			for k, pp := range fn.Params {
+				if pp == pr {
+					hosts[g.Params[i]] = k
+				}
+			}
+		}
+	}
+	if len(hosts) != 2 {
+		return nil, nil
+	}
+	return g, hosts
+}
+
+func evalComparatorWith(fn *ssa.Function, v cmpVal, paramHost map[*ssa.Parameter]int) (bool, string) {
 	if len(fn.Blocks) == 0 {
 		return false, "no body"
 	}
@@ -1079,6 +1136,10 @@ func evalComparator(fn *ssa.Function, v cmpVal) (bool, string) {
 				return
 			}
 			switch z := y.(type) {
+			case *ssa.Parameter:
+				if k, ok := paramHost[z]; ok {
+					idx = k
+				}
 			case *ssa.UnOp:
 				walk(z.X, depth+1)
 			case *ssa.FieldAddr:
